@@ -108,6 +108,8 @@ impl Number {
             .unit
             .iter()
             .map(|(k, &power)| (k.clone(), power * exp as i64))
+            // x^0 is dimensionless, don't keep base units with a zero power around
+            .filter(|&(_, power)| power != 0)
             .collect::<Dimensionality>();
         Number {
             value: self.value.pow(exp),
